@@ -573,6 +573,21 @@ def _work(args):
             for _ in range(8 if tier == "quick" else 150):
                 t2_twin(gen_t2_case(rng), sess)
         elif what == "views":
+            if payload == 0:
+                # every (index size, worker count) pair up to 48 x 9: the shard views partition the index
+                from vlib.harness import build_index
+                for n_ in range(0, 49):
+                    idx_ = build_index([{"id": f"p{j}", "owner": "A", "text": f"t{j}", "ts": "2023-01-01T00:00:00Z", "vec": "enc", "aux": {}} for j in range(n_)])
+                    for w_ in range(1, 10):
+                        vs_ = list(idx_._iter_shards_for_t2("exact_semantic", suggested=w_))
+                        got_ = []
+                        for v_ in vs_:
+                            got_ += [e.get("id") for e in (v_._eps if v_ is idx_ else v_._episodes)]
+                        sess.evaluations += 1
+                        sess.count("shard_partitions_enumerated")
+                        if got_ != [e.get("id") for e in idx_._eps]:
+                            sess.violation("shard-views-do-not-partition-the-current-index", {"ops": ["enumerated"], "workers": w_, "n": n_}, {"views": got_[-6:], "index_tail": [e.get("id") for e in idx_._eps][-6:]})
+                            break
             rng = random.Random(f"C09/views/{seed}/{payload}")
             for _ in range(40 if tier == "quick" else 1500):
                 shard_views_case(rng, sess)
